@@ -18,6 +18,8 @@ use affinitree::pwl::afftree::AffTree;
 use serde_json::json;
 
 pub fn run_case(ctx: &Ctx, case: u64, ev: &mut Ev) {
+    // armed without faults: lets the monitor see whether the LP backend itself reported an error
+    let _hook = crate::util::HookGuard::new();
     let mut rng = Rng::derive(ctx.seed, "C06", case);
     rng.big = ctx.tier == crate::Tier::Thorough && rng.chance(0.2);
     if rng.chance(0.65) {
@@ -139,6 +141,10 @@ fn run_tree(case: u64, rng: &mut Rng, ev: &mut Ev) {
     if let Err(e) = s1.wf_tree() {
         fail!("c06:malformed", e);
     }
+    if affinitree::verif::real_errors() > 0 {
+        ev.skip("the LP backend itself reported an error during the run: less pruning is the permitted effect (C11)");
+        return;
+    }
     // effective: no surviving non-root node whose path is empty by more than the tolerance
     let mut cached_before = 0;
     for (i, _) in &s1.nodes {
@@ -180,6 +186,10 @@ fn run_tree(case: u64, rng: &mut Rng, ev: &mut Ev) {
         Err(p) => fail!("c06:second-run:panic", p),
     };
     let s2 = snap(&e2);
+    if affinitree::verif::real_errors() > 0 {
+        ev.skip("the LP backend itself reported an error during the run: less pruning is the permitted effect (C11)");
+        return;
+    }
     if let Some(d) = structure_eq(&s1, &s2) {
         fail!("c06:not-idempotent", format!("second run changed the tree: {}", d));
     }
@@ -250,6 +260,10 @@ fn run_net(case: u64, rng: &mut Rng, ev: &mut Ev) {
             return;
         }
     };
+    if affinitree::verif::real_errors() > 0 {
+        ev.skip("the LP backend itself reported an error during the run: less pruning is the permitted effect (C11)");
+        return;
+    }
     let cells = match refnet::cells(&layers, n, None, 3000) {
         Some(c) => c,
         None => {
